@@ -291,6 +291,12 @@ impl Ctl {
         !s.run_ended && s.last_event.elapsed() >= quiet && s.tasks.iter().any(|t| t.phase == Phase::Running) && !s.tasks.iter().any(|t| matches!(t.phase, Phase::AtBegin | Phase::AtEnd) && (t.release_begin || t.release_end))
     }
 
+    /// number of tasks that were spawned and have not ended yet (meaningful right after a run returned)
+    pub fn in_flight_now(&self) -> u64 {
+        let s = lock(&self.st);
+        Self::in_flight(&s)
+    }
+
     /// Open every gate (used when some thread panics, so that `Drop`'s join cannot block)
     pub fn open_gates(&self) {
         let mut s = lock(&self.st);
